@@ -549,6 +549,10 @@ class _SymNum:
     def __init__(self, e):
         self.e = e
 
+    def __bool__(self):
+        # truth value of a number: x != 0 (decided by the path context; forks when both are possible)
+        return ctx().decide(self.e != 0) if active() else True
+
     def _bin(self, o, f, rev=False):
         p = _arith_pair(o, self) if rev else _arith_pair(self, o)
         if p is None:
